@@ -767,10 +767,86 @@ func c15RefusedOnKnownParents(w *core.WorkerCtx) {
 	w.R.Count("c15_refused_on_known_parents_rounds", 12)
 }
 
+// c15AfterTruncation: requests about things the node has checkpointed. 1030 transfers are proposed through the notary,
+// the ledger truncates, and then the oldest transactions (now in the storage, not in the graph), the newest and unknown
+// ones are asked for through notary.Saved and pulled through gossip.GetVertex, next to balance and history requests.
+func c15AfterTruncation(w *core.WorkerCtx) {
+	rig, err := svc.New(4, 60, 2048)
+	if err != nil {
+		w.R.Inconc("cannot build the node: " + err.Error())
+		return
+	}
+	defer rig.Close()
+	e := &c15env{w: w, rig: rig, rng: core.Rand(w.Seed, "C15trunc", w.Batch)}
+	for _, u := range rig.Users {
+		e.addrs = append(e.addrs, u.Addr)
+	}
+	ctx := context.Background()
+	u := rig.Users
+	var hashes [][32]byte
+	for i := 0; i < 1030; i++ {
+		t := ledger.ForgeTrx(u[0], u[1+i%3].Addr, fmt.Sprintf("before truncation %d", i), nil, spice.Melange{SupplementaryCurrency: uint64(1 + i%9)}, time.Now().Add(-time.Minute))
+		p, err := transformers.TrxToProtoTrx(t)
+		if err != nil {
+			continue
+		}
+		if _, err := rig.Notary.Propose(ctx, p); err == nil {
+			hashes = append(hashes, t.Hash)
+		}
+	}
+	w.Mark("c15 after truncation: truncating a ledger of %d proposals", len(hashes))
+	if err := rig.Book.VerifTruncate(ctx); err != nil {
+		w.R.Note("c15 after truncation: truncation failed: " + err.Error())
+	}
+	s, _ := ledger.TakeSnap(rig.Book)
+	if s == nil || len(s.Stored) == 0 {
+		w.R.Note("c15 after truncation: nothing was checkpointed")
+		return
+	}
+	var vhashes []ledger.H
+	for h := range s.Stored {
+		vhashes = append(vhashes, h)
+		if len(vhashes) == 6 {
+			break
+		}
+	}
+	ask := append([][32]byte{}, hashes[:6]...)
+	ask = append(ask, hashes[len(hashes)-3:]...)
+	ask = append(ask, [32]byte{1, 2, 3})
+	for i, h := range ask {
+		h := h
+		shape := fmt.Sprintf("valid request for transaction %d of %d after a truncation (checkpointed: %v)", i, len(ask), i < 6)
+		e.call("notary", "Saved", shape, true, func() (any, error) { return rig.Notary.Saved(ctx, svc.Sign(u[0], h[:])) })
+	}
+	for i, h := range vhashes {
+		h := h
+		e.call("gossip", "GetVertex", fmt.Sprintf("pull of checkpointed vertex %d", i), true, func() (any, error) { return rig.Gossip.GetVertex(ctx, svc.Sign(rig.PeerAct[0], h[:])) })
+	}
+	for _, who := range u {
+		who := who
+		e.call("notary", "Balance", "valid request after a truncation", true, func() (any, error) {
+			rig.Flash.RemoveAddress(who.Addr)
+			return rig.Notary.Balance(ctx, svc.Sign(who, []byte(who.Addr)))
+		})
+		e.call("notary", "TransactionsInDAG", "valid request after a truncation", true, func() (any, error) {
+			rig.Flash.RemoveAddress(who.Addr)
+			b, err := rig.Notary.Data(ctx, &protobufcompiled.Address{Public: who.Addr})
+			if err != nil {
+				return nil, err
+			}
+			return rig.Notary.TransactionsInDAG(ctx, svc.Sign(who, b.Blob))
+		})
+	}
+	w.R.Count("c15_after_truncation_scenarios", 1)
+}
+
 func c15Worker(w *core.WorkerCtx) {
 	if w.Batch%4 == 0 {
 		c15ExpiredEntries(w)
 		c15RefusedOnKnownParents(w)
+	}
+	if w.Batch%4 == 1 {
+		c15AfterTruncation(w)
 	}
 	if w.Batch%4 == 1 {
 		c15Concurrent(w)
